@@ -2181,7 +2181,7 @@ class Node(SimComponent, ABC):
         Powers off the node and sets is_resetting to True.
         Applying more timesteps will eventually turn the node back on.
         """
-        if self.operating_state.ON:
+        if self.operating_state == NodeOperatingState.ON:
             self.config.is_resetting = True
             self.sys_log.info("Resetting")
             self.power_off()
